@@ -1,7 +1,121 @@
 import ASV.Drv.J
+import ASV.Model.Ids
+import ASV.Spec.Ids
 namespace ASV.Drv.C16
-open Lean ASV ASV.Drv
+open Lean ASV ASV.Drv ASV.Ids
 
-def handle (_j : Json) : R Json := throw "C16: no model yet"
+def asChars (j : Json) : R Str := do return (← asStr j).toList
+def optChars (j : Json) : R (Option Str) :=
+  match j with
+  | .null => pure none
+  | _ => do return some (← asChars j)
+def jS (s : Str) : Json := Json.str (String.ofList s)
+def jOptS : Option Str → Json
+  | none => Json.null
+  | some s => jS s
+
+def errStr : Err → String
+  | .runtime => "RuntimeError" | .noName => "no-name" | .assertion => "assertion" | .fuel => "model-fuel"
+def gerrStr : GErr → String
+  | .noIdentifier => "no-identifier" | .dupLocation => "dup-location" | .dupName => "dup-name"
+  | .assertion => "assertion"
+
+def recToJson (r : Rec) : Json := jArr [jS r.id, jS r.name, jOptS r.orig]
+def outOfJson (j : Json) : R IdSpec.Out := do
+  return ⟨← asChars (← idx j 0), ← asChars (← idx j 1), ← optChars (← idx j 2)⟩
+
+/-- sorted, duplicate-free list of strings (canonical form of a Python set) -/
+def canonSet (l : List Str) : Json :=
+  jStrs (sortDedup (· < ·) (l.map String.ofList))
+
+def specOfImpl (allowLong : Bool) (ids : List Str) (impl : Json) : R Json := do
+  match impl with
+  | .null => return Json.null
+  | _ =>
+    let outs ← listOf outOfJson impl
+    return jObj [
+      ("distinct", toJson (IdSpec.pairwiseDistinct (outs.map (·.id)))),
+      ("clean", toJson (outs.all fun o => IdSpec.fileSafe o.id && IdSpec.fileSafe o.name)),
+      ("short", toJson (outs.all fun o => IdSpec.shortEnough allowLong o.id && IdSpec.shortEnough allowLong o.name)),
+      ("remembers", toJson (IdSpec.remembersAll ids outs)),
+      ("ok", toJson (IdSpec.recordsOk allowLong ids outs))]
+
+def handleIds (j : Json) : R Json := do
+  let allowLong ← boolF j "allow_long"
+  let inp ← listOf (fun p => do return ((← asChars (← idx p 0)), (← asChars (← idx p 1)))) (← fld j "recs")
+  let model := match preProcessIds allowLong inp with
+    | .ok recs => jObj [("recs", jArr (recs.map recToJson))]
+    | .error e => jObj [("err", Json.str (errStr e))]
+  let spec ← specOfImpl allowLong (inp.map (·.1)) (fldD j "impl" Json.null)
+  return jObj [("model", model), ("spec", spec), ("scope", toJson true)]
+
+def handleFix (j : Json) : R Json := do
+  let allowLong ← boolF j "allow_long"
+  let r : Rec := ⟨← asChars (← fld j "rid"), ← asChars (← fld j "name"), ← optChars (fldD j "orig" Json.null),
+                  ← natF j "index"⟩
+  let taken ← listOf asChars (← fld j "taken")
+  let model := match fixRecordNameId allowLong taken r with
+    | .ok (r', t) => jObj [("rec", recToJson r'), ("taken", canonSet t)]
+    | .error e => jObj [("err", Json.str (errStr e))]
+  return jObj [("model", model), ("scope", toJson true)]
+
+def handleUnique (j : Json) : R Json := do
+  let pre ← asChars (← fld j "prefix")
+  let taken ← listOf asChars (← fld j "taken")
+  let start ← natF j "start"
+  let maxLen ← intF j "max_length"
+  let model := match generateUniqueId pre taken start maxLen with
+    | .ok (n, c) => jObj [("name", jS n), ("counter", toJson c)]
+    | .error e => jObj [("err", Json.str (errStr e))]
+  return jObj [("model", model), ("scope", toJson true)]
+
+structure OpJ where
+  kind : String
+  loc : Loc
+  locus : Option Str
+  gene : Option Str
+  protein : Option Str
+  chk : Str
+
+def opOfJson (j : Json) : R OpJ := do
+  return ⟨← strF j "op", ← locOfJson (← fld j "loc"), ← optChars (fldD j "locus_tag" Json.null),
+          ← optChars (fldD j "gene" Json.null), ← optChars (fldD j "protein_id" Json.null),
+          ← asChars (fldD j "chk" (Json.str ""))⟩
+
+def handleGenes (j : Json) : R Json := do
+  let ops ← listOf opOfJson (← fld j "ops")
+  let gop (op : OpJ) : GOp :=
+    if op.kind == "gene" then .gene (op.locus.getD []) op.loc else .cds op.loc op.locus op.gene op.protein op.chk
+  -- the state evolves by the model's `applyOp` (the function the theorems are about); the per-call
+  -- outcome is read off `addCds` on the state before the call
+  let (_, outs) := ops.foldl (fun (acc : GState × List Json) op =>
+    let (s, o) := acc
+    let out := if op.kind == "gene" then Json.str "gene"
+      else match addCds s (mkCds op.loc op.locus op.gene op.protein) op.chk with
+        | .ok (_, n) => jObj [("name", jS n)]
+        | .error e => jObj [("err", Json.str (gerrStr e))]
+    (applyOp s (gop op), o ++ [out])) (({} : GState), [])
+  let st := runOps {} (ops.map gop)
+  -- spec on the implementation's final CDS list: [[name, loc], …]
+  let implJ := fldD j "impl" Json.null
+  let spec ← match implJ with
+    | .null => pure Json.null
+    | _ => do
+      let cdss ← listOf (fun c => do return ((← asChars (← idx c 0)), (← locOfJson (← idx c 1)))) implJ
+      pure (jObj [("names_distinct", toJson (IdSpec.pairwiseDistinct (cdss.map (·.1)))),
+                  ("locs_distinct", toJson (IdSpec.pairwiseDistinct (cdss.map (·.2)))),
+                  ("safe", toJson (cdss.all fun c => IdSpec.geneSafe c.1)),
+                  ("ok", toJson (IdSpec.genesOk cdss))])
+  return jObj [("model", jObj [("ops", jArr outs),
+                               ("cdss", jArr (st.cdss.map fun c => jArr [jS c.1, locToJson c.2]))]),
+               ("spec", spec), ("scope", toJson true)]
+
+def handle (j : Json) : R Json := do
+  match (← strF j "kind") with
+  | "ids" => handleIds j
+  | "fix" => handleFix j
+  | "unique" => handleUnique j
+  | "genes" => handleGenes j
+  | k => throw s!"C16: unknown kind {k}"
 
 end ASV.Drv.C16
